@@ -151,14 +151,14 @@ ADDED = {
  "C06": "; lookup-agreement rule for SymbolTable::get / insert; operand-role oracle for the non-commutative operators with pattern-binding tracking; stack pop-order rule; error-discipline rule for every symbol lookup",
  "C07": "; match-table rule for the scheme selection; single-use rule for the token-level table in the block loader",
  "C08": "; finite abstract evaluation of TokenNext::is_sealed / keypair; last-block selector rule",
- "C09": "; allow-list premises re-evaluated against the rule instances of the property they cite; allow-list entries follow a source that moves inside its function family; linear facts from checked_sub payloads",
+ "C09": "; allow-list premises re-evaluated against the rule instances of the property they cite; allow-list entries follow a source that moves inside its function family; linear facts from checked_sub payloads; bounds checks indexed by an enum discriminant discharged from the discriminant values in the fact base",
  "C10": "; position rule fact-budget-before-fixpoint-exit; CFG rules on Authorizer::run (time recorded on every exit, evaluated-marker only under the success edge); unit agreement across snapshots",
  "C12": "; membership-test rule (no binary_search over unsorted tables); sibling rule for the two block accessors; single-use rule for the token-level table",
  "C13": "; finite abstract evaluation of the origin writer; unit agreement (as_nanos/from_nanos), zero-is-none guard, snapshot-table extension pairing, check-kind gate agreement of the two block loaders, saved-version dependence rule",
  "C14": "; substituted-clone rule for parameterised printers; producer/consumer field-coverage rule by projected type (parser result vs loaders, block carriers vs printers); pop-order rule; sibling rule for the block accessors",
  "C16": "; finite abstract evaluation of check_compatibility (64 cells) and block_signature_version (40 cells) against the specification; gate-comparison rule for check kinds; unconditional-gate rule (not inside a loop or closure)",
- "C17": "; remainder rule for string conversions built on grammar parsers (callee ends with eof, or the remainder is used); whole-run hex decoding rule",
+ "C17": "; remainder rule for string conversions built on grammar parsers (callee ends with eof, or the remainder is used); whole-run hex decoding rule; bounds checks indexed by an enum discriminant discharged from the discriminant values in the fact base",
  "C19": "; name-agreement table rule for error_kind (each error maps to the kind that names it)",
- "C18": "; parallel-binding rule over the generated `let` token sequences",
+ "C18": "; parallel-binding rule over the generated `let` token sequences; field-coverage agreement between the macro and run time callers of the same parser entry point (SourceResult fields)",
  "C20": "; overwrite rule for parameter setters; parallel-binding rule over the generated `let` token sequences",
 }
